@@ -1,6 +1,7 @@
 package harness
 
 import (
+	"crypto/tls"
 	"errors"
 	"fmt"
 	"sort"
@@ -36,6 +37,13 @@ import (
 
 const c20Marker = "Zq7Pw"
 
+// c20Marker2 marks the second password of the sessions in which the application changes or re-issues the
+// password (Conn.Pass, ConnectTo with a password while connected, Config.Pass edited after Connect).
+const c20Marker2 = "Kj4Xt"
+
+// c20Second derives the second password from the first: same variant part, other marker.
+func c20Second(pw string) string { return strings.Replace(pw, c20Marker, c20Marker2, 1) }
+
 const c20DialErr = "connection refused"
 
 var c20Variants = []string{"p", "PASS", " lead", "a b", ":c", "%s%d%!", "\\", "\x01x", strings.Repeat("z", 600)}
@@ -51,7 +59,7 @@ var c20KnownFormats = []string{
 	"Invalid cap subcommand: ", "SASL authentication failed", "SASL authentication failed: %v",
 	"SASL mechanism not supported, supported mechanisms are: %v", "Server changed our nick on connect: old=%q new=%q",
 	"irc.recv(): problems parsing line:\n  %s", "PASS **************",
-	"Tracker.", "Channel.", "Nick.", "irc.311(): received WHOIS info for unknown nick %s", "irc.JOIN(): JOIN to unknown channel %s received ",
+	"Tracker.", "Channel.", "Nick.", "irc.Connect(): Cannot connect to %s, already connected.", "irc.311(): received WHOIS info for unknown nick %s", "irc.JOIN(): JOIN to unknown channel %s received ",
 }
 
 type c20Mode struct{ Neg, Track bool }
@@ -75,7 +83,14 @@ var c20Modes = []c20Mode{{false, false}, {true, false}, {false, true}, {true, tr
 // PASS, NICK, USER, PONG: the PASS line itself fails for K=1 resp. K=2) | writeerrKb (same, but the
 // welcome and the PING are already waiting when the connection is made, so the PONG competes with
 // the registration lines for the K-th write) | dial-error | no-server
-var c20Outcomes = []string{"normal", "eof0", "writeerr1", "writeerr2", "writeerr3", "writeerr4", "writeerr1b", "writeerr2b", "writeerr3b", "writeerr4b", "dial-error", "no-server"}
+//
+// tls-garbage | tls-eof: cfg.SSL is on and the TLS handshake fails (the server answers in plain text / hangs
+// up) | user-pass: the application sends a second password with Conn.Pass after registration |
+// reconnect-to: ConnectTo(other host, second password) while connected (refused, but stores the password) |
+// rotate: Config.Pass is overwritten with the second password as soon as Connect has returned, i.e. while
+// the PASS line may still be queued | wipe: same, overwritten with ""
+var c20Outcomes = []string{"normal", "eof0", "writeerr1", "writeerr2", "writeerr3", "writeerr4", "writeerr1b", "writeerr2b", "writeerr3b", "writeerr4b", "dial-error", "no-server",
+	"tls-garbage", "tls-eof", "user-pass", "reconnect-to", "rotate", "wipe"}
 
 const (
 	c20LS  = ":srv CAP * LS :multi-prefix sasl away-notify"
@@ -127,7 +142,7 @@ func c20Needles(pw string) []string {
 func c20Judge(pw string, logs []vx.LogRec) ([]explore.Finding, c20Stats) {
 	st := c20Stats{Levels: map[string]int{}}
 	var fs []explore.Finding
-	needles := c20Needles(pw)
+	needles := append(c20Needles(pw), c20Needles(c20Second(pw))...)
 	has := func(text string) bool {
 		for _, n := range needles {
 			if strings.Contains(text, n) {
@@ -178,7 +193,7 @@ func c20Judge(pw string, logs []vx.LogRec) ([]explore.Finding, c20Stats) {
 		}
 		if i := strings.Index(full, "PASS "); i >= 0 {
 			st.PassShown++
-			if strings.Contains(full[i+5:], c20Marker) {
+			if strings.Contains(full[i+5:], c20Marker) || strings.Contains(full[i+5:], c20Marker2) {
 				add("pass-line-not-masked", fmt.Sprintf("%s record shows the PASS command unmasked: %s", rec.Level, show(full)))
 			} else {
 				st.Masked++
@@ -190,7 +205,7 @@ func c20Judge(pw string, logs []vx.LogRec) ([]explore.Finding, c20Stats) {
 
 func c20Scenario(pwIdx int, pw string, m c20Mode, outcome string) *explore.Scenario {
 	for _, s := range c20Configured(m) {
-		if strings.Contains(s, pw) || strings.Contains(s, c20Marker) {
+		if strings.Contains(s, pw) || strings.Contains(s, c20Marker) || strings.Contains(s, c20Marker2) {
 			panic(fmt.Sprintf("C20 harness precondition violated: password/marker %s occurs in configured string %s", Q(pw), Q(s)))
 		}
 	}
@@ -213,6 +228,10 @@ func c20Scenario(pwIdx int, pw string, m c20Mode, outcome string) *explore.Scena
 			if outcome == "no-server" {
 				cfg.Server = ""
 			}
+			if strings.HasPrefix(outcome, "tls-") {
+				cfg.SSL = true
+				cfg.SSLConfig = &tls.Config{InsecureSkipVerify: true}
+			}
 		})
 		if m.Track {
 			c.EnableStateTracking()
@@ -228,8 +247,11 @@ func c20Scenario(pwIdx int, pw string, m c20Mode, outcome string) *explore.Scena
 					x.Preload("PING :x1\r\n")
 				}
 			}
-			if outcome == "eof0" {
+			if outcome == "eof0" || outcome == "tls-eof" {
 				x.PreloadEOF()
+			}
+			if outcome == "tls-garbage" {
+				x.Preload(":srv NOTICE AUTH :*** Looking up your hostname\r\n")
 			}
 		}
 		if outcome == "dial-error" {
@@ -240,7 +262,35 @@ func c20Scenario(pwIdx int, pw string, m c20Mode, outcome string) *explore.Scena
 		if err != nil {
 			return
 		}
+		switch outcome {
+		case "rotate":
+			c.Config().Pass = c20Second(pw)
+		case "wipe":
+			c.Config().Pass = ""
+		}
 		vx.Quiesce()
+		switch outcome {
+		case "user-pass", "reconnect-to", "rotate", "wipe":
+			if m.Neg {
+				vc.SendLines(c20LS)
+				vx.Quiesce()
+				vc.SendLines(c20ACK)
+				vx.Quiesce()
+			}
+			vc.SendLines(welcome)
+			vx.Quiesce()
+			if outcome == "user-pass" {
+				c.Pass(c20Second(pw))
+			}
+			if outcome == "reconnect-to" {
+				err := c.ConnectTo("other.example:6667", c20Second(pw))
+				vx.Observe("ev", fmt.Sprintf("second connect refused=%v", err != nil))
+				c.Pass(pw) // the first password again, while the configuration holds the second
+			}
+			vx.Quiesce()
+			vc.SendLines("PING :x1")
+			vx.Quiesce()
+		}
 		if outcome == "normal" {
 			feed := func(l string) {
 				vc.SendLines(l)
@@ -413,10 +463,10 @@ func c20EnumJob(name string, idx []int, pws []string) Job {
 func init() {
 	Register(&Prop{
 		ID:   "C20",
-		Rule: "passwords = marker \"Zq7Pw\" + variant and \"x\" + marker + variant for variant ∈ {p, PASS, ' lead', 'a b', ':c', '%s%d%!', '\\', '\\x01x', 600×z} (18 designed), plus marker + every printable ASCII byte (95) and a length ladder 1..2000 (12) (thorough: + pairs of IRC/fmt/mask-significant bytes around the marker and fmt/IRC look-alikes); sessions = {plain, negotiation, tracking, both} × outcome {normal welcome + 11 lines + EOF, EOF at once, write error on write 1..4, dial error, empty cfg.Server}; enumeration jobs run every (password, session) once under the default schedule; exploration jobs run the failing-connection sessions of the 18 designed passwords under every schedule within the deviation budgets; the capturing logger records all four levels; distinct = distinct (password, session, sequence of (level, format) records, number of masked PASS records) resp. distinct canonical observation per explored scenario",
+		Rule: "passwords = marker \"Zq7Pw\" + variant and \"x\" + marker + variant for variant ∈ {p, PASS, ' lead', 'a b', ':c', '%s%d%!', '\\', '\\x01x', 600×z} (18 designed), plus marker + every printable ASCII byte (95) and a length ladder 1..2000 (12) (thorough: + pairs of IRC/fmt/mask-significant bytes around the marker and fmt/IRC look-alikes); sessions = {plain, negotiation, tracking, both} × outcome {normal welcome + 11 lines + EOF, EOF at once, write error on write 1..4, dial error, empty cfg.Server, TLS handshake answered in plain text / by EOF, a second password (other marker) sent with Conn.Pass after registration, ConnectTo(other host, second password) while connected followed by Conn.Pass(first), Config.Pass overwritten (second password / empty) as soon as Connect returns}; enumeration jobs run every (password, session) once under the default schedule; exploration jobs run the failing-connection sessions of the 18 designed passwords under every schedule within the deviation budgets; the capturing logger records all four levels; distinct = distinct (password, session, sequence of (level, format) records, number of masked PASS records) resp. distinct canonical observation per explored scenario",
 		Assumptions: []string{
 			"the server never sends the password (recv logs every received line); asserted by the harness precondition",
-			"all connections go through the in-memory proxy dialler, so the direct-dial and TLS branches of internalConnect (two constant Info records) are not executed",
+			"all connections go through the in-memory proxy dialler, so the direct-dial branch of internalConnect (one Info record with cfg.Server) is not executed; the TLS branch is executed with a handshake that fails (plain-text answer, EOF), never with one that succeeds",
 			"a record 'contains the password' if its format, its rendering, or one argument rendered alone (fmt.Sprint, %v, %s, %q, %+v, %#v) contains the password or its Go-quoted form; pointers reachable from an argument but not printed by these verbs are not followed",
 			"crash / deadlock outcomes of explored schedules belong to C06 / C07 and are not reported here; their records are still judged",
 		},
@@ -440,7 +490,7 @@ func init() {
 			// single observation over all schedules within the budgets, so they are explored for the
 			// first password only (those jobs report themselves as vacuous) and otherwise run by the
 			// enumeration jobs.
-			outs := []string{"eof0", "writeerr1b", "writeerr2b", "writeerr3b", "writeerr4b"}
+			outs := []string{"eof0", "writeerr1b", "writeerr2b", "writeerr3b", "writeerr4b", "rotate", "wipe"}
 			flat := []string{"writeerr1", "writeerr2", "writeerr3", "writeerr4", "dial-error", "no-server"}
 			deep := budgets
 			if tier == "thorough" {
